@@ -65,6 +65,8 @@ func init() {
 		Old: "\t\tnext, err := newOperator(e.Expr, storage, opts, hints)\n\t\tif err != nil {\n\t\t\treturn nil, err\n\t\t}\n\n\t\tif e.Param != nil {", New: "\t\tnext, err := newOperator(e.Expr, storage, opts, hints)\n\n\t\tif e.Param != nil {", Expect: "newOperator"})
 	mutant(Mutant{Rule: "R-SELKEY", Name: "range-start-not-hashed", File: "execution/storage/pool.go",
 		Old: "\twriteInt64(sb, mint)\n", New: "", Expect: "hashMatchers"})
+	mutant(Mutant{Rule: "R-SELKEY", Name: "matcher-type-not-hashed", File: "execution/storage/pool.go",
+		Old: "\twriteString(sb, strconv.Itoa(int(m.Type)))\n", New: "\t_ = strconv.Itoa\n", Expect: "hashMatchers"})
 	mutant(Mutant{Rule: "R-TSTAMP", Name: "last-over-time-raw-point", File: "execution/function/functions.go",
 		Old: "\t\t\t\tT: f.StepTime,\n\t\t\t\tV: f.Points[len(f.Points)-1].V,", New: "\t\t\t\tT: f.Points[len(f.Points)-1].T,\n\t\t\t\tV: f.Points[len(f.Points)-1].V,", Expect: "last_over_time"})
 }
@@ -810,6 +812,25 @@ func ruleSelKey(p *core.Program) []core.Obligation {
 	for _, f := range []string{"Step", "Func", "Grouping", "By"} {
 		if !used[f] {
 			missing = append(missing, "hints."+f)
+		}
+	}
+	// every matcher is hashed with its full identity (type, name, value)
+	mfields := map[string]bool{}
+	for f := range syncReach(p, fn, func(caller *ssa.Function, ins ssa.Instruction, c *ssa.Function) bool {
+		cc := core.CallCommon(ins)
+		return cc == nil || !cc.IsInvoke()
+	}) {
+		core.EachInstr(f, func(b *ssa.BasicBlock, i int, ins ssa.Instruction) {
+			if v, ok := ins.(ssa.Value); ok {
+				if n, fld, _, ok := core.FieldRef(v); ok && n != nil && n.Obj().Pkg() != nil && n.Obj().Pkg().Path() == pkgLabels && n.Obj().Name() == "Matcher" {
+					mfields[fld] = true
+				}
+			}
+		})
+	}
+	for _, f := range []string{"Name", "Type", "Value"} {
+		if !mfields[f] {
+			missing = append(missing, "matcher."+f)
 		}
 	}
 	key := "storage.hashMatchers covers the select parameters"
